@@ -31,3 +31,5 @@ pub fn stamina_object_strains(
 
     Ok(values.skills.stamina.verif_object_strains().to_vec())
 }
+
+pub use super::difficulty::verif_skills::{skill_trace, RhythmGroupRecord, TaikoSkillRecord, TaikoSkillTrace};
